@@ -191,4 +191,15 @@ var props = map[string]Prop{
 			prog("modules", "./harness/c12", "TestC12Modules", 2, 60, 8, 16),
 		},
 	},
+	"C08": {
+		ID: "C08", Level: "exploration",
+		Rule: "rapid builds go/types types from a recursive grammar (every scalar width, complex, string, unsafe.Pointer, pointers, slices, maps, chans, funcs, empty and non-empty interfaces, arrays of length 0/1/2/3/5, structs of 0-6 fields with blank fields, named types; depth <= 4) and evaluates each on six targets (linux/amd64, arm64, riscv64, 386, arm, wasip1/wasm; Program and types.Sizes set up exactly as internal/build.Do does): (a) Program.TypeSizes Sizeof/Alignof/Offsetsof (what folds unsafe.Sizeof etc.), (b) the LLVM data layout of Program.Type(T) (size, ABI alignment, element offsets = what generated code and descriptor field offsets use), (c) abi.Builder.Size/Align (descriptor). All must coincide. Non-trivial: type containing a struct, func, zero-length array or complex; distinct by (type, target).",
+		Assumptions: []string{
+			"32-bit and non-x86 targets are evaluated in-process only (their code cannot be executed here)",
+			"the comparison with the host C compiler's layout and the compiled reflect/unsafe agreement are part of the generated-program job when built",
+		},
+		Jobs: []Job{
+			inj("layout", "ssa", "zz_verif_c08_test.go", "llvm14", "TestVerifC08Layout", 4000, 150000, 4, 16),
+		},
+	},
 }
